@@ -86,6 +86,20 @@ func c08Valid(r *rand.Rand) *cfg.Config {
 		}
 	}
 	c.Meta.Imports = append(c.Meta.Imports, cfg.KS{K: "lib2", V: "fixt/pa"}, cfg.KS{K: "lib10", V: "fixt/pb"}, cfg.KS{K: "lib1x", V: "fixt/os"})
+	// packages whose FIRST use is inside one mapping (the fields of one service, one service's sibling in the services mapping):
+	// the local names given to imports are numbered in order of first use, which therefore has to be a sorted order
+	for k, svc := range []string{"AAfirstUse", "firstUse", "zzFirstUse"} {
+		sv := cfg.Service{Name: svc, Constructor: cfg.P(fmt.Sprintf(`"first.test/ctor%d".New`, k))}
+		for fi, f := range []string{"F1", "F2", "f3", "Fa", "fb", "FC"} {
+			form := []string{`!value "first.test/s%d/f%d".Global`, `!value &"first.test/s%d/f%d".Obj{}`, `!value "first.test/s%d/f%d".Box.Inner`}[(k+fi)%3]
+			sv.Fields = append(sv.Fields, cfg.KV{K: f, V: cfg.Str(fmt.Sprintf(form, k, fi))})
+		}
+		sv.Calls = []cfg.Call{{Method: "Set", Args: []cfg.Val{cfg.Str(fmt.Sprintf(`!value "first.test/call%d".Global`, k))}}}
+		c.Services = append(c.Services, sv)
+	}
+	for fi := 0; fi < 6; fi++ {
+		c.Meta.Functions = append(c.Meta.Functions, cfg.KS{K: fmt.Sprintf("firstUseFn%d", fi), V: fmt.Sprintf(`"first.test/fn%d".Fn`, fi)})
+	}
 	r.Shuffle(len(c.Services), func(i, j int) { c.Services[i], c.Services[j] = c.Services[j], c.Services[i] })
 	r.Shuffle(len(c.Params), func(i, j int) { c.Params[i], c.Params[j] = c.Params[j], c.Params[i] })
 	return c
